@@ -34,6 +34,10 @@ VCLASSES = ['rand', 'dectie', 'dectie4', 'dectie-width', 'tails', 'pow10', 'exac
 LOG2_10 = math.log(10, 2)
 
 
+class HarnessError(BaseException):
+    """a disagreement inside the oracle: must crash the worker (-> inconclusive), never become a verdict"""
+
+
 def shards(tier, seed):
     return [{'n': CASES[tier]} for _ in range(16)]
 
@@ -235,7 +239,7 @@ def parseable(rec, s, case, what):
         S, k = pk
         m = min(k, ex)
         if S * 10 ** (k - m) != Sd * 10 ** (ex - m):
-            raise RuntimeError('harness: parser twins disagree on %r' % s)
+            raise HarnessError('harness: parser twins disagree on %r' % s)
     return True
 
 
@@ -266,7 +270,7 @@ def check_real_print(mpm, rec, raw, s, n, case, what, r=None):
         twin = X.nearest_ok_fraction(raw, S, k, n)
         rec.event('twin Fraction oracle consulted')
         if twin != ok:
-            raise RuntimeError('harness: nearest_ok twins disagree on %r %r n=%d' % (raw, s, n))
+            raise HarnessError('harness: nearest_ok twins disagree on %r %r n=%d' % (raw, s, n))
     if not ok:
         if detail == 'more than n significant digits':
             key = 'C08/to_str/more-than-n-digits'
@@ -540,6 +544,16 @@ def run_case(mpm, rec, r, i, shard_no=0):
     if raw is None:
         rec.undecided('generator: enclosure could not produce the neighbours of a decimal tie')
         return
+    try:
+        _dispatch(mpm, rec, r, kind, raw, p, n, vclass)
+    except Exception as e:
+        # the library raised while printing / re-parsing a finite number
+        rec.case((kind, raw[:3], p, n, 'raised'), True, cls='%s/%s/raised' % (kind, vclass))
+        rec.violation('C08/%s/exception/%s' % (kind, print_path(raw, n)), 'printing or re-parsing raised %s' % type(e).__name__,
+                      case_of(kind, raw, p, n), repr(e)[:300], 'a literal')
+
+
+def _dispatch(mpm, rec, r, kind, raw, p, n, vclass):
     if kind == 'repr':
         do_repr(mpm, rec, r, raw, p, vclass)
     elif kind == 'nstr':
